@@ -178,13 +178,22 @@ func getMinIntType(
 		minimum, maximum, exclusiveMinimum, exclusiveMaximum,
 	)
 
-	if nExclusiveMin && nMin != nil {
-		v := *nMin + 1.0
+	// Reduce the bounds to the smallest and largest integers they admit.
+	if nMin != nil {
+		v := math.Ceil(*nMin)
+		if nExclusiveMin {
+			v = math.Floor(*nMin) + 1.0
+		}
+
 		nMin = &v
 	}
 
-	if nExclusiveMax && nMax != nil {
-		v := *nMax - 1.0
+	if nMax != nil {
+		v := math.Floor(*nMax)
+		if nExclusiveMax {
+			v = math.Ceil(*nMax) - 1.0
+		}
+
 		nMax = &v
 	}
 
